@@ -223,6 +223,51 @@ func run(c *core.Ctx) error {
 			}
 		}
 	}
+	// Engine S: TLC-generated schedules (persister, merger, purger, copy and reader
+	// steps interleaved as in simulated behaviours of ScorchDisk.tla), one
+	// consistent observation after every step
+	for _, safe := range []bool{false, true} {
+		scheds, err := sx.SimulatedSchedules(c, c.Pick(5, 50), c.Pick(60, 80), c.Seed*3+7, safe)
+		if err != nil {
+			return err
+		}
+		nobs := 0
+		for i, sch := range scheds {
+			base := c.TempDir("c12s")
+			name := fmt.Sprintf("tlc-schedule-%d(safe=%v)", i, safe)
+			r, sched, err := sx.RunSchedule(filepath.Join(base, "idx"), sch, c.Seed, func(r *sx.Run, i int, st sx.SchedStep) {
+				r.Sample("step")
+			})
+			if err != nil {
+				return err
+			}
+			if sched.CopyErr != nil {
+				c.Violation("c12/copy-failed", fmt.Sprintf("%s: CopyTo failed: %v", name, sched.CopyErr), map[string]any{"scenario": name, "schedule": sch})
+			}
+			if r.Settle(30 * time.Second) {
+				r.Sample("quiescent")
+			}
+			if err := r.Close(); err != nil {
+				return err
+			}
+			os.RemoveAll(base)
+			for _, ev := range r.Rec.Events() {
+				if ev["ev"] == "Sample" || ev["ev"] == "Closed" {
+					m := map[string]any(ev)
+					all = append(all, m)
+					owner = append(owner, name)
+					if ev["ev"] == "Sample" {
+						nobs++
+						c.Eval(1)
+						if len(m["bolt"].([]any))+len(m["root"].([]any))+len(m["readers"].([]any))+len(m["copyheld"].([]any)) > 0 {
+							c.Distinct(core.Canon([]any{m["bolt"], m["disk"], m["root"], m["readers"], m["copyheld"]}))
+						}
+					}
+				}
+			}
+		}
+		c.Logf("%d TLC-generated schedules executed (safe=%v): %d observations", len(scheds), safe, nobs)
+	}
 	for _, useCopy := range []bool{false, true} {
 		dres, err := sx.DirectedHeldEpoch(c.TempDir("c12d"), c.Seed, useCopy)
 		if err != nil {
